@@ -475,6 +475,16 @@ func ballotsValue(kind string, height int64) []byte {
 	switch kind {
 	case "true-stale":
 		return serialize(stackitem.NewArray([]stackitem.Item{mk(0)}))
+	case "true-pending-before-stale":
+		// several decisions in the list, the one in progress not the last: a re-voted ballot is refreshed in place
+		// (seeded change C16-11: only the last ballot's age looked at)
+		return serialize(stackitem.NewArray([]stackitem.Item{mk(height), mk(0)}))
+	case "true-pending-between-stale":
+		return serialize(stackitem.NewArray([]stackitem.Item{mk(0), mk(height), mk(1)}))
+	case "true-stale-before-pending":
+		return serialize(stackitem.NewArray([]stackitem.Item{mk(0), mk(height)}))
+	case "true-several-stale":
+		return serialize(stackitem.NewArray([]stackitem.Item{mk(0), mk(1), mk(0)}))
 	case "true-pending", "true-age20", "true-age21":
 		// for the two boundary kinds the height is rewritten right before the update (ballotAtAge)
 		return serialize(stackitem.NewArray([]stackitem.Item{mk(height)}))
@@ -730,7 +740,8 @@ func runSynthetic(b *runner.Batch, art string, vr variant, containers int) {
 	}
 	w.SysFee = 150_0000_0000
 	b.Tx(1)
-	pending := hasNotarySwitch[art] && art != "audit" && vr.v < 17_000 && (vr.notary == "true-pending" || vr.notary == "true-age20")
+	pending := hasNotarySwitch[art] && art != "audit" && vr.v < 17_000 && (vr.notary == "true-pending" || vr.notary == "true-age20" ||
+		vr.notary == "true-pending-before-stale" || vr.notary == "true-pending-between-stale" || vr.notary == "true-stale-before-pending")
 	inRange := vs.prev <= vr.v && vr.v < vs.cur
 	expOK := inRange && !pending
 	det := map[string]any{"contract": art, "reported_version": vr.v, "notary_flag": vr.notary, "legacy_keys": vr.legacyKeys, "tx": w.RenderResult(tr, true), "oldest_supported": vs.prev, "new_version": vs.cur}
@@ -755,6 +766,9 @@ func runSynthetic(b *runner.Batch, art string, vr variant, containers int) {
 			b.Violation(fmt.Sprintf("%s: a refused upgrade changed something", art), det)
 		}
 		b.Hit("bounds-refused:" + cls)
+		if cls == "pending-vote" && strings.Contains(vr.notary, "stale") {
+			b.Hit("bounds-refused:pending-vote-among-stale-ones")
+		}
 		if cls == "pending-vote" && vr.notary == "true-age20" {
 			b.Hit("bounds-refused:pending-vote-aged-20-blocks")
 		}
@@ -880,7 +894,8 @@ func versionList(vs versions) []int64 {
 	return []int64{0, vs.prev - 1, vs.prev, vs.prev + 1, 15_999, 16_000, 16_999, 17_000, 17_999, 18_000, 18_999, 19_000, 19_999, vs.cur - 1, vs.cur, vs.cur + 1, 1 << 31}
 }
 
-var notaryKinds = []string{"absent", "false", "true-empty", "true-stale", "true-pending", "true-age20", "true-age21"}
+var notaryKinds = []string{"absent", "false", "true-empty", "true-stale", "true-pending", "true-age20", "true-age21",
+	"true-pending-before-stale", "true-pending-between-stale", "true-stale-before-pending", "true-several-stale"}
 
 // ---- batches
 
